@@ -99,7 +99,7 @@ func TestC04Sequences(t *testing.T) {
 				p.Ops = append(p.Ops, prog.Op{K: prog.Sub, T: 0, Reg: earlier})
 			}
 			p.Ops = append(p.Ops, prog.Op{K: prog.Sub, T: 0, Reg: once}, prog.Op{K: prog.Count, T: 0})
-			for _, k := range seq {
+			for i, k := range seq {
 				o := prog.Op{K: prog.Pub, T: 0, UseCtx: true}
 				switch k {
 				case "P":
@@ -107,7 +107,11 @@ func TestC04Sequences(t *testing.T) {
 				case "D":
 					o.PreCancelled, o.Deadline = true, true
 				case "E":
-					o.UseCtx = len(p.Ops)%2 == 0
+					o.UseCtx = i%2 == 0
+				case "H":
+					// every other one through the caller's own context type (which ends on its own
+					// terms while the application context it wraps stays live)
+					o.Deadline = i%2 == 1
 				}
 				p.Ops = append(p.Ops, o, prog.Op{K: prog.Wait}, prog.Op{K: prog.Count, T: 0}, prog.Op{K: prog.Has, T: 0})
 			}
@@ -177,6 +181,38 @@ func TestC04Sequences(t *testing.T) {
 		}
 		h.Exec(idx, p, nil, after)
 		run.Case(fmt.Sprintf("several-once self%v janitor%v a%v/%v f%v third%v panic%v", self, janitor, a1, a2, f2, third, panicky), true)
+	}
+	// re-armed one-shot listeners: after a once handler has fired, the next one is subscribed with
+	// nothing else happening in between (same function or another one; alone or next to permanent
+	// subscribers); every one of them fires exactly once
+	for v := 0; v < 64; v++ {
+		perm, sameFn, async, ctxAware, filter := v&3, v&4 != 0, v&8 != 0, v&16 != 0, v&32 != 0
+		if perm == 3 {
+			continue
+		}
+		idx++
+		if !run.Mine(idx) {
+			continue
+		}
+		p := &prog.Program{Types: []int{idx % len(h.Drivers)}}
+		for j := 0; j < perm; j++ {
+			p.Ops = append(p.Ops, prog.Op{K: prog.Sub, T: 0, Reg: &prog.Reg{Class: 8 + j}})
+		}
+		for round := 0; round < 4; round++ {
+			once := &prog.Reg{Class: 1 + round, Once: true, Async: async, Ctx: ctxAware}
+			if sameFn {
+				once.Class = 1
+			}
+			if filter {
+				once.Filter = 4
+			}
+			p.Ops = append(p.Ops, prog.Op{K: prog.Sub, T: 0, Reg: once}, prog.Op{K: prog.Count, T: 0})
+			for k := 0; k < 2; k++ { // two publishes (ids differ in what an id-dependent filter makes of them)
+				p.Ops = append(p.Ops, prog.Op{K: prog.Pub, T: 0, UseCtx: k == 1}, prog.Op{K: prog.Wait}, prog.Op{K: prog.Count, T: 0}, prog.Op{K: prog.Has, T: 0})
+			}
+		}
+		h.Exec(idx, p, nil, after)
+		run.Case(fmt.Sprintf("re-armed perm%d same%v a%v c%v f%v", perm, sameFn, async, ctxAware, filter), true)
 	}
 	// wide registries: more handlers of one type than any small internal capacity; once handlers at
 	// the far end of the list (and everywhere): each fires once and none is counted afterwards
